@@ -585,6 +585,13 @@ theorem fileStep_inv (fs : Fs) (hinv : Inv fs) (fd : Fd) (hfd : FdOk fs fd) (op 
   | size =>
     simp only [fileStep, fileSize_eq]
     exact ⟨hinv, hfd⟩
+  | read n =>
+    simp only [fileStep, fileRead]
+    have hl := sysRead_fd fs fd n
+    cases hs : sysRead fs fd n with
+    | mk fd' r =>
+      rw [hs] at hl
+      cases r <;> exact ⟨hinv, fdOk_of_same fs fd fd' hfd hl.1 hl.2⟩
 
 theorem runOps_inv : ∀ (ops : List FileOp) (fs : Fs) (fd : Fd), Inv fs → FdOk fs fd → Inv (runOps fs fd ops).1 := by
   intro ops
